@@ -343,7 +343,7 @@ impl Ctx {
                 let config = Config {
                     cases: n,
                     failure_persistence: None,
-                    max_shrink_iters: 4000,
+                    max_shrink_iters: 1200,
                     max_global_rejects: 65536,
                     ..Config::default()
                 };
